@@ -58,7 +58,8 @@ ASSUMPTIONS = [
     "sampling, not proof",
 ]
 PROBES = [
-    "rt_path_suffix", "rt_fileobj", "rt_fileobj_path_replaced", "rt_bytesio", "rt_zero_dim", "rt_dtype_cast", "rt_key", "rt_multichannel", "err_no_suffix",
+    "rt_path_suffix", "rt_fileobj", "rt_fileobj_path_replaced", "rt_bytesio", "rt_zero_dim", "rt_stream_at_offset",
+    "rt_file_overwritten_after_read", "rt_dtype_cast", "rt_key", "rt_multichannel", "err_no_suffix",
     "err_stream_no_force_as", "err_unknown_force_as", "wds_header_fault", "wds_payload_fault", "wds_last_byte",
     "wds_array_from_damaged", "wds_none", "wds_non_array_return", "wds_wrong_suffix", "wds_unknown_suffix", "wds_valid_image",
 ] + ["rt_" + k for k in ct.KINDS] + ["wds_" + k for k in ct.KINDS if k != "raw"]
@@ -71,8 +72,9 @@ def generate(rng, tier, k):
         spec = ct.gen_spec(rng)
         kind = spec["kind"]
         scn = {"mode": "rt", "spec": spec,
-               "access": rng.choice(("path", "path", "fileobj", "fileobj_replaced", "bytesio")) if kind != "raw"
-               else rng.choice(("path", "fileobj")),
+               "access": (rng.choice(("path", "path", "fileobj", "fileobj_replaced", "bytesio", "bytesio_offset"))
+                          if kind != "raw" else rng.choice(("path", "fileobj"))),
+               "clobber_after": rng.random() < 0.3,
                "other": ct.gen_spec(rng, kind),
                "dtype_req": None,
                "use_key": rng.random() < 0.6, "key_pick": rng.randrange(16),
@@ -165,11 +167,27 @@ def _exec_rt(scn, res, tr):
                     os.replace(p2, path)
                 finally:
                     shutil.rmtree(tmp2, ignore_errors=True)
+        elif access == "bytesio_offset" and kind in ("wav16", "wav32", "npy", "sph"):
+            # several recordings back to back in one stream: this one starts at the stream's current position
+            res.probe("rt_stream_at_offset")
+            junk = b"RIFFjunkWAVE" + bytes(range(256)) * 3
+            src = io.BytesIO(junk + data)
+            src.seek(len(junk))
+            kw["force_as"] = ct.FORCE_AS[kind]
         else:
             res.probe("rt_bytesio")
             src = io.BytesIO(data)
             kw["force_as"] = ct.FORCE_AS[kind]
         out, exc = _read(src, **kw)
+        if access == "path" and scn.get("clobber_after") and isinstance(out, np.ndarray):
+            # the file is overwritten in place after the read: what was returned must not change with it
+            res.probe("rt_file_overwritten_after_read")
+            keep = out.copy()
+            with open(path, "r+b") as f:
+                f.write(b"\xa5" * len(data))
+            if not np.array_equal(out, keep, equal_nan=(out.dtype.kind == "f")):
+                res.violate("RESULT_ALIASED", "%s: the returned array changed when the file was overwritten afterwards" % kind,
+                            **facts)
         tr.log("rt", kind, access, sorted((k, str(v)) for k, v in kw.items()), out, exc)
         if exc is not None:
             res.violate("RAISES", "read_signal(%s via %s, %s) raised %s: %s" % (
